@@ -184,8 +184,12 @@ fn gen_plan(rng: &mut Prng) -> (ClockSpec, u64) {
                 let o = rng.range(j as u64, 299) as usize;
                 idx.swap(j, o);
             }
+            // some of the multiples of 100 are backward steps (interaction of two counters)
+            let backward_multiples = if rng.chance(1, 2) { rng.range(1, 3) as usize } else { 0 };
             for (n, i) in idx.iter().enumerate() {
-                if n < k {
+                if n < backward_multiples {
+                    measured[*i] = 0u64.wrapping_sub(100 * rng.range(1, 50));
+                } else if n < k {
                     measured[*i] = 100 * rng.range(1, 50) + if rng.chance(1, 8) { 1u64 << 32 } else { 0 };
                 } else if measured[*i] % 100 == 0 {
                     measured[*i] += 1 + rng.below(98);
@@ -202,6 +206,13 @@ fn gen_plan(rng: &mut Prng) -> (ClockSpec, u64) {
             }
             for i in k.min(300)..300 {
                 measured[i] = base + 13 + rng.below(1000) * 2 + (i as u64 % 2) * 977;
+            }
+            // a few backward probes inside the stuck stretch (interaction of two counters)
+            if rng.chance(1, 2) {
+                for _ in 0..rng.range(1, 3) {
+                    let i = rng.below(k.min(300) as u64) as usize;
+                    measured[i] = 0u64.wrapping_sub(measured[i]);
+                }
             }
         }
         "mixture" => {
